@@ -121,6 +121,9 @@ fn run_recipe(rep: &mut Report, recipe: &[Op], tag: serde_json::Value, static_mo
             edits.push((c, n.to_string(), "n0".into()));
         }
     }
+    if cfg!(miri) {
+        edits.truncate(3);
+    }
     for (c, id, ext) in edits {
         version += 1;
         let content = match (id.as_str(), ext.as_str()) {
@@ -212,7 +215,7 @@ pub fn run(args: &Args) -> Report {
     }
     rep.extra.insert("recipe_space".into(), json!(recipes.len()));
     // quick: a seeded sample; thorough: everything (sharded)
-    let take_every = if miri { 300 } else if args.thorough() { 1 } else { 5 };
+    let take_every = if miri { 700 } else if args.thorough() { 1 } else { 5 };
     let offset = rng.below(take_every);
     let mut total_passes = 0;
     let mut with_reload = 0;
@@ -271,7 +274,7 @@ pub fn run(args: &Args) -> Report {
     rep.count("single_entry_edits", total_passes);
     rep.count("passes_with_reload", with_reload);
     rep.exhaustive = Some(take_every == 1);
-    rep.floor("recipe_parts", rep.n_seen("recipe_parts"), if miri { 3 } else { 15 });
+    rep.floor_set("recipe_parts", if miri { 3 } else { 15 });
     rep.floor("passes_with_reload", with_reload, if miri { 1 } else { 200 });
     rep
 }
